@@ -180,6 +180,21 @@ class Ctx:
         accepted = r["ok"] and not r["violated"] and info["rejected_at"] is None
         return accepted, info
 
+    def tlaps(self, module, deps=(), theorem="", timeout=1500):
+        """Check a TLAPS proof module (unbounded design-level result; never a verdict about the code by itself)."""
+        work = self.path("tlaps-" + module)
+        os.makedirs(work, exist_ok=True)
+        for f in (module,) + tuple(deps):
+            shutil.copy(os.path.join(SPEC, f + ".tla"), work)
+        try:
+            p = subprocess.run(["tlapm", "--threads", "16", "--cleanfp", module + ".tla"], cwd=work, capture_output=True, text=True, timeout=timeout)
+        except subprocess.TimeoutExpired:
+            raise Inconclusive("TLAPS timeout on %s.tla" % module)
+        m = re.search(r"All (\d+) obligations? proved", p.stdout + p.stderr)
+        if not m:
+            raise Inconclusive("TLAPS did not discharge %s.tla:\n%s" % (module, (p.stdout + p.stderr)[-1500:]))
+        self.notes.setdefault("tlaps", []).append({"module": module + ".tla", "theorem": theorem, "obligations": int(m.group(1)), "discharged": int(m.group(1))})
+
     # ------------------------------------------------------------------ Go harness
     def go_test(self, run, env=None, timeout=1500, race=False, pkg="./...", extra=()):
         """Run the harness tests matching `run` with -tags verif against /repo's working tree."""
